@@ -8,6 +8,7 @@ mod matchwalk;
 mod members;
 mod poolstress;
 mod sim;
+mod sublife;
 mod subrace;
 mod updwalk;
 mod syncneeds;
@@ -37,6 +38,7 @@ fn main() {
             "sub-race" => subrace::run(args[2].parse().unwrap(), args[3].parse().unwrap(), args[4] == "1", &args[5]).await,
             "updates-walk" => updwalk::run(args[2].parse().unwrap(), args[3].parse().unwrap(), args[4].parse().unwrap(), &args[5]).await,
             "matcher-walk" => matchwalk::run(args[2].parse().unwrap(), &args[3], args[4].parse().unwrap(), &args[5]).await,
+            "sub-life" => sublife::run(args[2].parse().unwrap(), &args[3], args[4].parse().unwrap(), &args[5]).await,
             "sim-replay" => sim::run_replay(&args[2], &args[3]).await,
             "replay-members" => members::run(&args[2]),
             "replay-chunker" => chunker::run_chunker(&args[2]),
